@@ -5,7 +5,7 @@ set -u
 PATCH="$(readlink -f "$1")"; shift
 if [ -n "$(git -C /repo status --porcelain --untracked-files=no)" ]; then echo "refusing: /repo has uncommitted changes"; exit 2; fi
 git -C /repo apply "$PATCH" || { echo "patch does not apply"; exit 2; }
-trap 'git -C /repo checkout -q -- .' EXIT
+trap 'git -C /repo checkout -q -- .; (cd /verif/harness && CARGO_NET_OFFLINE=true cargo build --release --offline >/dev/null 2>&1)' EXIT   # the binary is rebuilt against the clean tree afterwards
 (cd /verif/harness && CARGO_NET_OFFLINE=true cargo build --release --offline 2>&1 | grep -E "^error" -A8)
 for id in "$@"; do
   out=$(cd /verif/harness && VERIF_ROOT=/verif VERIF_NO_EVIDENCE=1 ./target/release/hv run "$id" quick 2>&1); rc=$?
